@@ -76,6 +76,65 @@ func seeds(seed int64, per int, out string) [][]byte {
 			}
 		}
 	}
+	// special seeds: an AMF CONFIGURATION UPDATE whose transport layer address is a BIT STRING of 16383 / 20000 bits (a fragmented length
+	// determinant; more than 2 KiB), and NG RESET messages whose connection list holds items of a few bits (more items than octets)
+	for si, nb := range []int{16383, 20000} {
+		pdu := ngapType.NGAPPDU{Present: 1, InitiatingMessage: &ngapType.InitiatingMessage{}}
+		im := pdu.InitiatingMessage
+		im.ProcedureCode.Value = ngapType.ProcedureCodeAMFConfigurationUpdate
+		im.Criticality.Value = ngapType.CriticalityPresentReject
+		im.Value.Present = ngapType.InitiatingMessagePresentAMFConfigurationUpdate
+		im.Value.AMFConfigurationUpdate = &ngapType.AMFConfigurationUpdate{}
+		ie := ngapType.AMFConfigurationUpdateIEs{}
+		ie.Id.Value = ngapType.ProtocolIEIDAMFTNLAssociationToAddList
+		ie.Criticality.Value = ngapType.CriticalityPresentIgnore
+		ie.Value.Present = ngapType.AMFConfigurationUpdateIEsPresentAMFTNLAssociationToAddList
+		ie.Value.AMFTNLAssociationToAddList = &ngapType.AMFTNLAssociationToAddList{}
+		it := ngapType.AMFTNLAssociationToAddItem{}
+		it.AMFTNLAssociationAddress.Present = ngapType.CPTransportLayerInformationPresentEndpointIPAddress
+		bs := ev.Bytes(g.R, (nb+7)/8)
+		if nb%8 != 0 {
+			bs[len(bs)-1] &= 0xff << uint(8-nb%8)
+		}
+		it.AMFTNLAssociationAddress.EndpointIPAddress = &ngapType.TransportLayerAddress{Value: aper.BitString{Bytes: bs, BitLength: uint64(nb)}}
+		it.TNLAddressWeightFactor.Value = 7
+		ie.Value.AMFTNLAssociationToAddList.List = append(ie.Value.AMFTNLAssociationToAddList.List, it)
+		im.Value.AMFConfigurationUpdate.ProtocolIEs.List = append(im.Value.AMFConfigurationUpdate.ProtocolIEs.List, ie)
+		var b []byte
+		var err error
+		if p := ev.Catch(func() { b, err = ngap.Encoder(pdu) }); p == "" && err == nil && w != nil {
+			all = append(all, b)
+			w.Emit(ev.M{"ev": "Seed", "id": 8000 + si, "name": "AMFConfigurationUpdate-long", "bytes": ev.Ints(b), "tree": te.Export(reflect.ValueOf(&pdu).Elem(), te.Parse(pduTag))})
+		}
+	}
+	for si, shape := range [][2]int{{8, 0}, {40, 1}, {100, 0}} {
+		pdu := ngapType.NGAPPDU{Present: 1, InitiatingMessage: &ngapType.InitiatingMessage{}}
+		im := pdu.InitiatingMessage
+		im.ProcedureCode.Value = ngapType.ProcedureCodeNGReset
+		im.Criticality.Value = ngapType.CriticalityPresentReject
+		im.Value.Present = ngapType.InitiatingMessagePresentNGReset
+		im.Value.NGReset = &ngapType.NGReset{}
+		ie := ngapType.NGResetIEs{}
+		ie.Id.Value = ngapType.ProtocolIEIDResetType
+		ie.Criticality.Value = ngapType.CriticalityPresentReject
+		ie.Value.Present = ngapType.NGResetIEsPresentResetType
+		rt := &ngapType.ResetType{Present: ngapType.ResetTypePresentPartOfNGInterface, PartOfNGInterface: &ngapType.UEAssociatedLogicalNGConnectionList{}}
+		for i := 0; i < shape[0]; i++ {
+			item := ngapType.UEAssociatedLogicalNGConnectionItem{}
+			if shape[1] == 1 && i%7 == 0 {
+				item.RANUENGAPID = &ngapType.RANUENGAPID{Value: int64(i)}
+			}
+			rt.PartOfNGInterface.List = append(rt.PartOfNGInterface.List, item)
+		}
+		ie.Value.ResetType = rt
+		im.Value.NGReset.ProtocolIEs.List = append(im.Value.NGReset.ProtocolIEs.List, ie)
+		var b []byte
+		var err error
+		if p := ev.Catch(func() { b, err = ngap.Encoder(pdu) }); p == "" && err == nil && w != nil {
+			all = append(all, b)
+			w.Emit(ev.M{"ev": "Seed", "id": 8100 + si, "name": "NGReset-small-items", "bytes": ev.Ints(b), "tree": te.Export(reflect.ValueOf(&pdu).Elem(), te.Parse(pduTag))})
+		}
+	}
 	// transfer containers (decoded separately from the PDU that carries them as an OCTET STRING): seed ids from 9000, one full and
 	// (thorough) further random values per type; the types reachable only through a transfer meet corrupted input through these
 	for ti, tv := range te.TransferTypes {
